@@ -32,6 +32,44 @@ OK(e) == e.out.ok
 At(e, path) == e.out.flat[path]
 HasP(e, path) == path \in DOMAIN e.out.flat
 
+\* structure of a recorded result
+SeqSet(q) == {q[i] : i \in DOMAIN q}
+Crs(e) == SeqSet(e.out.crs)
+SrvsOf(e, c) == SeqSet(e.out.srvs[c])
+SrcsOf(e, c) == SeqSet(e.out.srcs[c])
+StepsOf(e) == 1..e.N
+V(e, path) == e.out.flat[path]
+P2(a, b) == a \o "." \o b
+P3(a, b, c) == a \o "." \o b \o "." \o c
+P4(a, b, c, d) == a \o "." \o b \o "." \o c \o "." \o d
+Cr(c, x) == "cr." \o c \o "." \o x
+T(path, t) == path \o "." \o ToString(t)
+TolE(e) == Tol(e.mag)
+Eq(e, a, b) == Abs(a - b) <= TolE(e)
+EqN(e, a, b, n) == Abs(a - b) <= n * TolE(e)
+Ge0(e, a) == a >= -TolE(e)
+Le(e, a, b) == a <= b + TolE(e)
+SumSteps(e, path) == ISumSet(LAMBDA t : V(e, T(path, t)), StepsOf(e))
+
+\* ratios (RER...) are compared with a tolerance that grows as their denominator (the total
+\* weighted energy) shrinks towards the rounding noise; below 4 tolerances they are noise
+TotS(e) == Abs(V(e, "bal.we.b.ren") + V(e, "bal.we.b.nren"))
+RatioEq(e, a, b) ==
+  LET t == TotS(e) IN t <= 4 * TolE(e) \/ Abs(a - b) <= 2 + ((2 * TolE(e) * 10000) \div t) * 100
+Ratios == {"rer", "rer_nrb", "rer_onst"}
+
+\* a * b / 10^6 without leaving 32 bits (|a| <= 2*10^6, |b| <= 10^6... )
+MulMillionth(a, b) ==
+  LET s == IF (a < 0) # (b < 0) THEN -1 ELSE 1
+      x == Abs(a)  y == Abs(b)
+      x1 == x \div 1000  x0 == x % 1000
+  IN s * (((x1 * y) \div 1000) + ((x0 * y) \div 1000000))
+
+\* a logged component value (unit 10^-q) in the unit of the results (10^-p)
+InUnit(e, v) == IF e.p >= e.q THEN v * Pow10(e.p - e.q)
+                ELSE (v + (Pow10(e.q - e.p) \div 2)) \div Pow10(e.q - e.p)
+CompSum(e, P(_), t) == ISumSet(LAMBDA i : InUnit(e, e.comps[i].v[t]), {i \in 1..Len(e.comps) : P(e.comps[i])})
+
 SpecOutcome(e) == Outcome(CompsOf(e), FacOf(e), KOf(e), AOf(e), e.lm, e.N)
 SpecResult(e) == Evaluate(CompsOf(e), FacOf(e), KOf(e), AOf(e), e.lm, e.N)
 
